@@ -115,36 +115,81 @@ Proof. intros H. cbn. now rewrite H. Qed.
 Definition upd (E : nat -> option pyval) (i : nat) (y : pyval) : nat -> option pyval :=
   fun k => if Nat.eqb k i then Some y else E k.
 
+(* protocol operations that cannot disturb the object they are applied to: len() of a Sized
+   object, indexing a Sequence within bounds or a mapping at a key it holds (so __missing__
+   cannot fire), and next(iter(.)) only of re-iterable Collections (never of a one-shot
+   iterator or generator) *)
+Definition safe_op (t : top) : Prop :=
+  match t with
+  | TLen v => issub (type_of v) c_Sized = true
+  | TItem v i =>
+      match v with
+      | VMap _ kvs => lookup i kvs <> None
+      | _ => issub (type_of v) c_Sequence = true /\
+             exists z, i = VInt z /\ (0 <= z < Z.of_nat (List.length (items v)))%Z
+      end
+  | TFirst v => issub (type_of v) c_Collection = true
+  | TFirstValue v => issub (type_of v) c_Mapping = true
+  | TInst _ | TSub _ | TBool _ | TEq _ _ | TCall _ _ | TAttr _ _ => True
+  end.
+
+Lemma safe_item_seq y z : wf y = true -> issub (type_of y) c_Sequence = true ->
+  (0 <= z < Z.of_nat (List.length (items y)))%Z -> safe_op (TItem y (VInt z)).
+Proof.
+  intros Hw Hs Hz. cbn [safe_op].
+  destruct y as [| b | z0 | h | s | s | k l | k kvs | k | k attrs]; try (split; [exact Hs|eauto]).
+  exfalso. cbn [wf] in Hw. apply andb_true_iff in Hw as [Hw _]. apply andb_true_iff in Hw as [Hm _].
+  exact (not_Mapping_and_Sequence _ Hm Hs).
+Qed.
+
 Definition agree (n : nat) (E : nat -> option pyval) (s : st) : Prop :=
-  forall k, k < n -> env_get (Pith k) (env s) = E k.
+  (forall k, k < n -> env_get (Pith k) (env s) = E k) /\ Forall safe_op (trace s).
+
+Lemma agree_get n E s k : agree n E s -> k < n -> env_get (Pith k) (env s) = E k.
+Proof. intros [H _] L. now apply H. Qed.
+
+Lemma agree_safe n E s : agree n E s -> Forall safe_op (trace s).
+Proof. now intros [_ H]. Qed.
 
 Lemma agree_mono m n E s : m <= n -> agree n E s -> agree m E s.
-Proof. intros L H k Hk. apply H. lia. Qed.
+Proof. intros L [H T]. split; [|exact T]. intros k Hk. apply H. lia. Qed.
 
-Lemma agree_log n E t s : agree n E (log t s) <-> agree n E s.
-Proof. unfold agree, log; cbn. tauto. Qed.
+Lemma agree_log n E t s : agree n E s -> safe_op t -> agree n E (log t s).
+Proof.
+  intros [H T] Hs. split; [exact H|]. unfold log; cbn. apply Forall_app. split; [exact T|]. now constructor.
+Qed.
 
 Lemma agree_bind_ge n E s k v : agree n E s -> n <= k -> agree n E (bind (Pith k) v s).
 Proof.
-  intros H L j Hj. unfold bind; cbn. destruct (Nat.eqb j k) eqn:Ej; [apply Nat.eqb_eq in Ej; lia|].
-  now apply H.
+  intros [H T] L. split; [|exact T]. intros j Hj. unfold bind; cbn.
+  destruct (Nat.eqb j k) eqn:Ej; [apply Nat.eqb_eq in Ej; lia|]. now apply H.
 Qed.
 
 Lemma agree_bind n E s v : agree n E s -> agree (S n) (upd E n v) (bind (Pith n) v s).
 Proof.
-  intros H j Hj. unfold bind, upd; cbn. destruct (Nat.eqb j n) eqn:Ej; [reflexivity|].
-  apply Nat.eqb_neq in Ej. apply H. lia.
+  intros [H T]. split; [|exact T]. intros j Hj. unfold bind, upd; cbn.
+  destruct (Nat.eqb j n) eqn:Ej; [reflexivity|]. apply Nat.eqb_neq in Ej. apply H. lia.
 Qed.
 
 Lemma agree_upd_below n E s i y : agree n (upd E i y) s -> n <= i -> agree n E s.
 Proof.
-  intros H L k Hk. rewrite (H k Hk). unfold upd. destruct (Nat.eqb k i) eqn:Ek; [apply Nat.eqb_eq in Ek; lia|reflexivity].
+  intros [H T] L. split; [|exact T]. intros k Hk. rewrite (H k Hk). unfold upd.
+  destruct (Nat.eqb k i) eqn:Ek; [apply Nat.eqb_eq in Ek; lia|reflexivity].
 Qed.
 
 Lemma agree_upd_same n E s i y : agree n E s -> E i = Some y -> agree n (upd E i y) s.
 Proof.
-  intros H He k Hk. rewrite (H k Hk). unfold upd. destruct (Nat.eqb k i) eqn:Ek; [apply Nat.eqb_eq in Ek; now subst|reflexivity].
+  intros [H T] He. split; [|exact T]. intros k Hk. rewrite (H k Hk). unfold upd.
+  destruct (Nat.eqb k i) eqn:Ek; [apply Nat.eqb_eq in Ek; now subst|reflexivity].
 Qed.
+
+(* discharge "agree ... (log t (bind x v (log t' s)))" goals *)
+Ltac safe_tac := cbn [safe_op]; auto.
+Ltac solve_agree :=
+  repeat match goal with
+         | |- agree _ _ (log _ _) => apply agree_log; [|safe_tac]
+         | |- agree (S _) (upd _ _ _) (bind _ _ _) => apply agree_bind
+         end; try eassumption.
 
 Section Correct.
   Variable cf : gconf.
@@ -153,7 +198,7 @@ Section Correct.
   Notation ev := (eval r preds).
 
   Lemma ev_var n E s i y : agree n E s -> i < n -> E i = Some y -> ev (EVar (Pith i)) s = (Ok y, s).
-  Proof. intros H L He. cbn. rewrite (H i L), He. reflexivity. Qed.
+  Proof. intros H L He. cbn. rewrite (agree_get _ _ _ _ H L), He. reflexivity. Qed.
 
   Definition node_i (pith : expr) (idx : nat) : nat := if simple pith then idx else S idx.
   Definition node_assign (pith : expr) (idx : nat) : expr :=
@@ -177,8 +222,8 @@ Section Correct.
     apply (agree_upd_below _ _ _ (S idx) y); [|lia]. eapply agree_mono; [|exact H]. lia.
   Qed.
 
-  Lemma post_log pith idx y p E t s : post pith idx y p E s -> post pith idx y p E (log t s).
-  Proof. unfold post. destruct (simple pith); intros H; now apply agree_log. Qed.
+  Lemma post_log pith idx y p E t s : safe_op t -> post pith idx y p E s -> post pith idx y p E (log t s).
+  Proof. unfold post. intros Hs. destruct (simple pith); intros H; solve_agree. Qed.
 
   (* the raw pith expression (used by leaf nodes instead of the assignment) *)
   Lemma raw_pith pith idx y p E s :
@@ -190,8 +235,9 @@ Section Correct.
     - exists s1. auto.
     - unfold tpl_assign in E1. cbn [eval] in E1.
       destruct (ev pith s) as [[v|x] s0] eqn:Ep; [|discriminate]. inversion E1; subst. exists s0. split; [reflexivity|].
-      intros k Hk. specialize (A1 k). unfold bind, upd in A1. cbn in A1.
-      destruct (Nat.eqb k (S idx)) eqn:Ek; [apply Nat.eqb_eq in Ek; lia|]. apply A1. lia.
+      split; [|exact (agree_safe _ _ _ A1)].
+      intros k Hk. pose proof (agree_get _ _ _ k A1) as A1k. unfold bind, upd in A1k. cbn in A1k.
+      destruct (Nat.eqb k (S idx)) eqn:Ek; [apply Nat.eqb_eq in Ek; lia|]. apply A1k. lia.
   Qed.
 
   (* what every node's code guarantees (ignorable hints are elided by their parents) *)
@@ -207,7 +253,7 @@ Section Correct.
     exists s2, ev (tpl_instance [c] pith) s = (Ok (VBool (isinst y [c])), s2) /\ post pith idx y p E s2.
   Proof.
     intros Ht Ha. destruct (raw_pith _ _ _ _ _ _ Ht Ha) as (s1 & E1 & P1).
-    exists (log (TInst y) s1). unfold tpl_instance. cbn [eval]. rewrite E1. split; [reflexivity|now apply post_log].
+    exists (log (TInst y) s1). unfold tpl_instance. cbn [eval]. rewrite E1. split; [reflexivity|apply post_log; [exact I|assumption]].
   Qed.
 
   Lemma ok_any : node_ok HAny.
@@ -259,7 +305,7 @@ Section Correct.
   Qed.
 
   Lemma ev_v i E y s : agree (S i) (upd E i y) s -> ev (EVar (Pith i)) s = (Ok y, s).
-  Proof. intros H. cbn [eval]. rewrite (H i) by lia. unfold upd. now rewrite Nat.eqb_refl. Qed.
+  Proof. intros H. cbn [eval]. rewrite (agree_get _ _ _ i H) by lia. unfold upd. now rewrite Nat.eqb_refl. Qed.
 
   Lemma node_enter pith idx y p E s :
     pith_triple pith idx y p E -> agree p E s ->
@@ -294,7 +340,7 @@ Section Correct.
   Lemma post_var_child i E y s2 :
     post (EVar (Pith i)) i y (S i) (upd E i y) s2 -> agree (S i) (upd E i y) s2.
   Proof.
-    unfold post, node_i. cbn [simple]. intros H k Hk. rewrite (H k Hk). unfold upd.
+    unfold post, node_i. cbn [simple]. intros [H T]. split; [|exact T]. intros k Hk. rewrite (H k Hk). unfold upd.
     destruct (Nat.eqb k i); reflexivity.
   Qed.
 
@@ -309,7 +355,7 @@ Section Correct.
   Proof.
     intros Hw Hs Hne He Ha.
     assert (Hv : forall s0, agree (S i) E1 s0 -> ev (EVar (Pith i)) s0 = (Ok y, s0)).
-    { intros s0 H0. cbn [eval]. rewrite (H0 i) by lia. now rewrite He. }
+    { intros s0 H0. cbn [eval]. rewrite (agree_get _ _ _ i H0) by lia. now rewrite He. }
     assert (Hlen : py_len y = Ok (Z.of_nat (List.length (items y)))).
     { apply py_len_sized; [exact Hw|]. now apply sized_of_collection, collection_of_sequence. }
     assert (Hpos : (0 < Z.of_nat (List.length (items y)))%Z) by (destruct (items y); [congruence|cbn; lia]).
@@ -320,11 +366,13 @@ Section Correct.
         * eapply ev_mod; [cbn [eval]; reflexivity|eapply ev_len; [apply Hv; exact Ha|exact Hlen]|lia].
         * rewrite py_index_sequence; [|exact Hw|exact Hs|apply Z.mod_pos_bound; exact Hpos].
           destruct (items y); [congruence|reflexivity].
-      + now apply agree_log, agree_log.
+      + apply agree_log; [apply agree_log; [exact Ha|]|].
+        * cbn [safe_op]. now apply sized_of_collection, collection_of_sequence.
+        * apply safe_item_seq; [exact Hw|exact Hs|apply Z.mod_pos_bound; exact Hpos].
     - unfold tpl_sequence_child_first. eexists. split.
       + eapply ev_index; [apply Hv; exact Ha|cbn [eval]; reflexivity|].
         rewrite py_index_sequence; [reflexivity|exact Hw|exact Hs|lia].
-      + now apply agree_log.
+      + apply agree_log; [exact Ha|]. apply safe_item_seq; [exact Hw|exact Hs|lia].
   Qed.
 
   Lemma wf_first y : wf y = true -> items y <> [] -> wf (first y) = true.
@@ -365,19 +413,19 @@ Section Correct.
     rewrite (ev_and _ _ _ _ _ (ev_isinst _ [sign_origin s0] _ _ _ Eas)). cbn [truthy].
     destruct (isinst y [sign_origin s0]) eqn:Ei; cbn [andb].
     2: { exists (log (TInst y) s1). split; [reflexivity|].
-         apply post_of_agree; [eapply triple_le; eauto|]. now apply agree_log. }
+         apply post_of_agree; [eapply triple_le; eauto|]. solve_agree. }
     pose proof (Hsized y Hw Ei) as Hs.
     pose proof (py_len_sized y Hw Hs) as Hlen.
-    assert (A2 : agree (S i) E1 (log (TInst y) s1)) by now apply agree_log.
+    assert (A2 : agree (S i) E1 (log (TInst y) s1)) by solve_agree.
     rewrite (ev_or _ _ _ _ _ (ev_not _ _ _ _ (ev_len _ _ _ _ _ (ev_v i E y _ A2) Hlen))).
     cbn [truthy negb is_container]. rewrite len0_items.
     destruct (items y) as [|a l] eqn:El.
     - cbn. eexists. split; [reflexivity|].
-      apply post_of_agree; [eapply triple_le; eauto|]. now apply agree_log.
+      apply post_of_agree; [eapply triple_le; eauto|]. solve_agree.
     - cbn [List.length]. replace (Z.of_nat (S (List.length l)) =? 0)%Z with false by (symmetry; apply Z.eqb_neq; lia).
       cbn [negb orb].
       assert (Hne : items y <> []) by (rewrite El; discriminate).
-      assert (A3 : agree (S i) E1 (log (TLen y) (log (TInst y) s1))) by now apply agree_log.
+      assert (A3 : agree (S i) E1 (log (TLen y) (log (TInst y) s1))) by solve_agree.
       assert (Htr : pith_triple (mk (EVar (Pith i))) i (sel y) (S i) E1).
       { apply child_triple; [apply Hsimple|]. intros s0' A0. now apply (Hsel y i E1 s0' Hw Ei Hne HE1 A0). }
       destruct (IH Hig _ _ _ _ _ Htr (Hwsel y Hw Hne) _ A3) as (s4 & Eev & P4).
@@ -446,9 +494,9 @@ Section Correct.
         by (eapply issub_trans; [discriminate|exact Hi0|now apply family_reit_origin]).
       eexists. split.
       + unfold tpl_reiterable_child. eapply ev_first.
-        * cbn [eval]. rewrite (A i) by lia. rewrite HE. reflexivity.
+        * cbn [eval]. rewrite (agree_get _ _ _ i A) by lia. rewrite HE. reflexivity.
         * apply py_first_iterable; auto. now apply iterable_of_collection.
-      + now apply agree_log.
+      + solve_agree.
   Qed.
 
   (* ---------------- quasi-iterables (Iterable / Container / Reversible) ---------------- *)
@@ -469,24 +517,25 @@ Section Correct.
     rewrite (ev_and _ _ _ _ _ (ev_isinst _ [sign_origin s0] _ _ _ Eas)). cbn [truthy].
     destruct (isinst y [sign_origin s0]) eqn:Ei; cbn [andb].
     2: { exists (log (TInst y) s1). split; [reflexivity|].
-         apply post_of_agree; [eapply triple_le; eauto|]. now apply agree_log. }
-    assert (A2 : agree (S i) E1 (log (TInst y) s1)) by now apply agree_log.
+         apply post_of_agree; [eapply triple_le; eauto|]. solve_agree. }
+    assert (A2 : agree (S i) E1 (log (TInst y) s1)) by solve_agree.
     rewrite (ev_or _ _ _ _ _ (ev_not _ _ _ _ (ev_isinst _ [quasi_collection_abc] _ _ _ (ev_v i E y _ A2)))).
     cbn [truthy negb is_container].
     destruct (isinst y [quasi_collection_abc]) eqn:Ec; cbn [negb orb].
-    2: { eexists. split; [reflexivity|]. apply post_of_agree; [eapply triple_le; eauto|]. now apply agree_log. }
+    2: { eexists. split; [reflexivity|]. apply post_of_agree; [eapply triple_le; eauto|]. solve_agree. }
     rewrite Hqc, isinst_single in Ec.
+    pose proof (sized_of_collection _ Ec) as Hsz.
     pose proof (py_len_sized y Hw (sized_of_collection _ Ec)) as Hlen.
-    assert (A3 : agree (S i) E1 (log (TInst y) (log (TInst y) s1))) by now apply agree_log.
+    assert (A3 : agree (S i) E1 (log (TInst y) (log (TInst y) s1))) by solve_agree.
     rewrite (ev_or _ _ _ _ _ (ev_not _ _ _ _ (ev_len _ _ _ _ _ (ev_v i E y _ A3) Hlen))).
     cbn [truthy negb is_container]. rewrite len0_items.
     destruct (items y) as [|a l] eqn:El.
-    { cbn. eexists. split; [reflexivity|]. apply post_of_agree; [eapply triple_le; eauto|]. now apply agree_log. }
+    { cbn. eexists. split; [reflexivity|]. apply post_of_agree; [eapply triple_le; eauto|]. solve_agree. }
     cbn [List.length]. replace (Z.of_nat (S (List.length l)) =? 0)%Z with false by (symmetry; apply Z.eqb_neq; lia).
     cbn [negb orb].
     assert (Hne : items y <> []) by (rewrite El; discriminate).
     set (s4 := log (TLen y) (log (TInst y) (log (TInst y) s1))).
-    assert (A4 : agree (S i) E1 s4) by now apply agree_log.
+    assert (A4 : agree (S i) E1 s4) by (unfold s4; solve_agree).
     (* the item selection: binds Pith (S i) *)
     set (y' := if isinst y [quasi_sequence_abc] then sample cf r y else first y).
     assert (Hsel : exists s5, ev (EOr (EAnd (EIsInst (EVar (Pith i)) [quasi_sequence_abc])
@@ -497,7 +546,7 @@ Section Correct.
       pose proof (ev_and _ (ELet (Pith (S i)) (seq_child cf (EVar (Pith i)))) _ _ _
                     (ev_isinst _ [quasi_sequence_abc] _ _ _ (ev_v i E y _ A4))) as Hand.
       cbn [truthy] in Hand.
-      assert (A5 : agree (S i) E1 (log (TInst y) s4)) by now apply agree_log.
+      assert (A5 : agree (S i) E1 (log (TInst y) s4)) by solve_agree.
       destruct (isinst y [quasi_sequence_abc]) eqn:Es.
       - rewrite Hqs, isinst_single in Es.
         destruct (seq_child_eval i E1 y _ Hw Es Hne HE1 A5) as (s6 & E6 & A6).
@@ -506,7 +555,7 @@ Section Correct.
       - rewrite (ev_or _ _ _ _ _ Hand). cbn [truthy].
         erewrite ev_let; [|eapply ev_first; [apply (ev_v i E y _ A5)|]].
         2: { apply py_first_iterable; auto. now apply iterable_of_collection. }
-        eexists. split; [reflexivity|]. now apply agree_bind, agree_log. }
+        eexists. split; [reflexivity|]. solve_agree. }
     destruct Hsel as (s5 & E5 & A5).
     rewrite (ev_and _ _ _ _ _ E5). cbn [truthy].
     assert (Hwy' : wf y' = true).
@@ -565,19 +614,20 @@ Section Correct.
     rewrite (ev_and _ _ _ _ _ (ev_isinst _ [o] _ _ _ Eas)). cbn [truthy].
     destruct (isinst y [o]) eqn:Ei; cbn [andb].
     2: { exists (log (TInst y) s1). split; [reflexivity|].
-         apply post_of_agree; [eapply triple_le; eauto|]. now apply agree_log. }
+         apply post_of_agree; [eapply triple_le; eauto|]. solve_agree. }
     destruct (mapping_view y o Hw Ei Ho) as (Hm & _).
+    pose proof (sized_of_collection _ (collection_of_mapping _ Hm)) as Hsz.
     pose proof (py_len_sized y Hw (sized_of_collection _ (collection_of_mapping _ Hm))) as Hlen.
-    assert (A2 : agree (S i) E1 (log (TInst y) s1)) by now apply agree_log.
+    assert (A2 : agree (S i) E1 (log (TInst y) s1)) by solve_agree.
     rewrite (ev_or _ _ _ _ _ (ev_not _ _ _ _ (ev_len _ _ _ _ _ (ev_v i E y _ A2) Hlen))).
     cbn [truthy negb is_container]. rewrite len0_items.
     destruct (items y) as [|a l] eqn:El.
     - cbn. eexists. split; [reflexivity|].
-      apply post_of_agree; [eapply triple_le; eauto|]. now apply agree_log.
+      apply post_of_agree; [eapply triple_le; eauto|]. solve_agree.
     - cbn [List.length]. replace (Z.of_nat (S (List.length l)) =? 0)%Z with false by (symmetry; apply Z.eqb_neq; lia).
       cbn [negb orb].
       assert (Hne : items y <> []) by (rewrite El; discriminate).
-      assert (A3 : agree (S i) E1 (log (TLen y) (log (TInst y) s1))) by now apply agree_log.
+      assert (A3 : agree (S i) E1 (log (TLen y) (log (TInst y) s1))) by solve_agree.
       destruct (Hkv y i E1 _ Hw Ei Hne HE1 A3) as (s4 & E4 & A4).
       rewrite E4. exists s4. split; [reflexivity|].
       apply post_of_agree; [eapply triple_le; eauto|]. exact A4.
@@ -590,7 +640,7 @@ Section Correct.
     ev (EFirst (EVar (Pith i))) s = (Ok (first y), log (TFirst y) s) /\ wf (first y) = true.
   Proof.
     intros Hw Hi Ho Hne HE A. destruct (mapping_view y o Hw Hi Ho) as (Hm & _). split.
-    - eapply ev_first; [cbn [eval]; rewrite (A i) by lia; now rewrite HE|].
+    - eapply ev_first; [cbn [eval]; rewrite (agree_get _ _ _ i A) by lia; now rewrite HE|].
       apply py_first_iterable; auto. now apply iterable_of_collection, collection_of_mapping.
     - now apply wf_first.
   Qed.
@@ -604,7 +654,7 @@ Section Correct.
     intros Hw Hi Ho Hne HE A. destruct (mapping_view y o Hw Hi Ho) as (Hm & c & kvs & ->).
     destruct kvs as [|[k x] rest]; [cbn in Hne; congruence|].
     destruct (wf_map_head _ _ _ _ Hw) as (_ & Hx & _). split; [|exact Hx].
-    eapply ev_first_value; [cbn [eval]; rewrite (A i) by lia; now rewrite HE|reflexivity].
+    eapply ev_first_value; [cbn [eval]; rewrite (agree_get _ _ _ i A) by lia; now rewrite HE|reflexivity].
   Qed.
 
   Lemma map_key_value y o i E2 s :
@@ -612,17 +662,19 @@ Section Correct.
     E2 i = Some y -> E2 (S i) = Some (first y) -> agree (S (S i)) E2 s ->
     ev (tpl_mapping_key_value_child (EVar (Pith i)) (EVar (Pith (S i)))) s
       = (Ok (value_of_first_key y), log (TItem y (first y)) s)
-    /\ wf (value_of_first_key y) = true.
+    /\ wf (value_of_first_key y) = true /\ safe_op (TItem y (first y)).
   Proof.
     intros Hw Hi Ho Hne HE HE' A. destruct (mapping_view y o Hw Hi Ho) as (Hm & c & kvs & ->).
     destruct kvs as [|[k x] rest]; [cbn in Hne; congruence|].
     destruct (wf_map_head _ _ _ _ Hw) as (_ & Hx & Hk).
     assert (Hv : value_of_first_key (VMap c ((k, x) :: rest)) = x).
     { unfold value_of_first_key, first, items. cbn [items_of map fst nth]. now rewrite (lookup_head _ _ _ Hk). }
-    rewrite Hv. split; [|exact Hx].
+    rewrite Hv. split; [|split; [exact Hx|]].
+    2: { cbn [safe_op]. unfold first, items. cbn [items_of map fst nth].
+         rewrite (lookup_head _ _ _ Hk). discriminate. }
     unfold tpl_mapping_key_value_child. eapply ev_index.
-    - cbn [eval]. rewrite (A i) by lia. now rewrite HE.
-    - cbn [eval]. rewrite (A (S i)) by lia. now rewrite HE'.
+    - cbn [eval]. rewrite (agree_get _ _ _ i A) by lia. now rewrite HE.
+    - cbn [eval]. rewrite (agree_get _ _ _ (S i) A) by lia. now rewrite HE'.
     - unfold py_index, first, items. cbn [items_of map fst nth]. now rewrite (lookup_head _ _ _ Hk).
   Qed.
 
@@ -651,14 +703,16 @@ Section Correct.
     unfold tpl_mapping_key_value.
     rewrite (ev_and _ _ _ _ _ (ev_let _ _ _ _ _ Ef)). cbn [truthy].
     set (E2 := upd E1 (S i) (first y)).
-    assert (A2 : agree (S (S i)) E2 (bind (Pith (S i)) (first y) (log (TFirst y) s))) by now apply agree_bind, agree_log.
+    assert (Hcoll : issub (type_of y) c_Collection = true).
+    { destruct (mapping_view y o Hw Hi Ho) as (Hm & _). now apply collection_of_mapping. }
+    assert (A2 : agree (S (S i)) E2 (bind (Pith (S i)) (first y) (log (TFirst y) s))) by (unfold E2; solve_agree).
     destruct (IHk Hik _ _ _ _ _ (var_triple (S i) E1 (first y)) Hwf _ A2) as (s3 & E3 & P3).
     apply post_var_child in P3.
     rewrite (ev_and _ _ _ _ _ E3). cbn [truthy].
     destruct (chk cf r k (first y)); cbn [andb].
     - assert (HE2i : E2 i = Some y) by (unfold E2; rewrite upd_other by lia; exact HE).
       assert (HE2s : E2 (S i) = Some (first y)) by apply upd_self.
-      destruct (map_key_value y o i E2 s3 Hw Hi Ho Hne HE2i HE2s P3) as (_ & Hwv).
+      destruct (map_key_value y o i E2 s3 Hw Hi Ho Hne HE2i HE2s P3) as (_ & Hwv & Hsafe).
       destruct (Hval (value_of_first_key y) (S i) E2
                   (tpl_mapping_key_value_child (EVar (Pith i)) (EVar (Pith (S i)))) s3 eq_refl Hwv) as (s4 & E4 & A4).
       + intros s0 A0. destruct (map_key_value y o i E2 s0 Hw Hi Ho Hne HE2i HE2s A0) as (Ee & _).
@@ -689,7 +743,7 @@ Section Correct.
                  = (Ok (VBool (isinst y' [c_int])), s') /\ agree (S i) E2 s'.
   Proof.
     intros y' i E2 e s Hs Hw He A. destruct (He s A) as (s1 & E1 & A1).
-    exists (log (TInst y') s1). split; [unfold tpl_instance; now apply ev_isinst|now apply agree_log].
+    exists (log (TInst y') s1). split; [unfold tpl_instance; now apply ev_isinst|solve_agree].
   Qed.
 
   Lemma gen_map_unfold s0 k vh pith idx :
@@ -729,21 +783,24 @@ Section Correct.
                (fun v i => tpl_mapping_value_only (gen cf vh (tpl_mapping_value_only_child v) i))
                (fun y => true && chk cf r vh (first_value y)) Ho); auto.
       intros y0 i E1 s1 Hw0 Hi0 Hne HE A.
+      destruct (mapping_view y0 _ Hw0 Hi0 Ho) as (Hm0 & _).
       destruct (map_first_value y0 _ i E1 s1 Hw0 Hi0 Ho Hne HE A) as (_ & Hwv).
       unfold tpl_mapping_value_only, tpl_mapping_value_only_child. cbn [andb].
       apply (valcode_gen vh IHv Hiv); auto.
       intros s0' A0. destruct (map_first_value y0 _ i E1 s0' Hw0 Hi0 Ho Hne HE A0) as (Ee & _).
-      eexists. split; [exact Ee|now apply agree_log].
+      eexists. split; [exact Ee|solve_agree].
     - (* key only *)
       apply (mapping_generic (map_origin s0)
                (fun v i => tpl_mapping_key_only (gen cf k (tpl_mapping_key_only_child v) i))
                (fun y => chk cf r k (first y) && true) Ho); auto.
       intros y0 i E1 s1 Hw0 Hi0 Hne HE A.
+      destruct (mapping_view y0 _ Hw0 Hi0 Ho) as (Hm0 & _).
+      pose proof (collection_of_mapping _ Hm0) as Hc0.
       destruct (map_first_key y0 _ i E1 s1 Hw0 Hi0 Ho Hne HE A) as (_ & Hwv).
       unfold tpl_mapping_key_only, tpl_mapping_key_only_child. rewrite andb_true_r.
       apply (valcode_gen k IHk Hik); auto.
       intros s0' A0. destruct (map_first_key y0 _ i E1 s0' Hw0 Hi0 Ho Hne HE A0) as (Ee & _).
-      eexists. split; [exact Ee|now apply agree_log].
+      eexists. split; [exact Ee|solve_agree].
     - (* key and value *)
       apply (mapping_generic (map_origin s0)
                (fun v i => tpl_mapping_key_value (gen cf k (EVar (Pith (S i))) (S i))
@@ -765,9 +822,10 @@ Section Correct.
                (fun v i => tpl_mapping_value_only (tpl_instance [c_int] (tpl_mapping_value_only_child v)))
                (fun y => true && isinst (first_value y) [c_int]) Ho); auto.
       intros y0 i E1 s1 Hw0 Hi0 Hne HE A.
+      destruct (mapping_view y0 _ Hw0 Hi0 Ho) as (Hm0 & _).
       destruct (map_first_value y0 _ i E1 s1 Hw0 Hi0 Ho Hne HE A) as (Ee & _).
       unfold tpl_mapping_value_only, tpl_mapping_value_only_child, tpl_instance. cbn [andb].
-      eexists. split; [apply ev_isinst; exact Ee|now apply agree_log, agree_log].
+      eexists. split; [apply ev_isinst; exact Ee|solve_agree].
     - apply (mapping_generic counter_origin
                (fun v i => tpl_mapping_key_value (gen cf k (EVar (Pith (S i))) (S i))
                              (tpl_instance [c_int] (tpl_mapping_key_value_child v (EVar (Pith (S i))))) v (Pith (S i)))
@@ -789,12 +847,12 @@ Section Correct.
     rewrite (ev_and _ _ _ _ _ (ev_isinst _ [c_type] _ _ _ Eas)). cbn [truthy].
     destruct (isinst y [c_type]) eqn:Ei; cbn [andb].
     2: { exists (log (TInst y) s1). split; [reflexivity|].
-         apply post_of_agree; [eapply triple_le; eauto|]. now apply agree_log. }
+         apply post_of_agree; [eapply triple_le; eauto|]. solve_agree. }
     rewrite isinst_single in Ei. destruct (wf_type_shape y Hw Ei) as (c & ->).
-    assert (A2 : agree (S i) (upd E i (VCls c)) (log (TInst (VCls c)) s1)) by now apply agree_log.
-    cbn [eval]. rewrite (A2 i) by lia. rewrite upd_self. cbn [issubcls].
+    assert (A2 : agree (S i) (upd E i (VCls c)) (log (TInst (VCls c)) s1)) by solve_agree.
+    cbn [eval]. rewrite (agree_get _ _ _ i A2) by lia. rewrite upd_self. cbn [issubcls].
     eexists. split; [reflexivity|].
-    apply post_of_agree; [eapply triple_le; eauto|]. now apply agree_log.
+    apply post_of_agree; [eapply triple_le; eauto|]. solve_agree.
   Qed.
 
   (* ---------------- chains of and / or ---------------- *)
@@ -852,16 +910,16 @@ Section Correct.
     rewrite (ev_and _ _ _ _ _ (ev_isinst _ _ _ _ _ Eas)). cbn [truthy]. rewrite isinst_dedup.
     destruct (isinst y (map type_of vs)) eqn:Ei; cbn [andb].
     2: { exists (log (TInst y) s1). split; [reflexivity|].
-         apply post_of_agree; [eapply triple_le; eauto|]. now apply agree_log. }
+         apply post_of_agree; [eapply triple_le; eauto|]. solve_agree. }
     destruct vs as [|v0 vs]; [discriminate|].
-    assert (A2 : agree (S i) (upd E i y) (log (TInst y) s1)) by now apply agree_log.
+    assert (A2 : agree (S i) (upd E i y) (log (TInst y) s1)) by solve_agree.
     destruct (join_or_eval (agree (S i) (upd E i y))
                 (map (fun l => tpl_literal_item l (EVar (Pith i))) (v0 :: vs))
                 (map (py_eq y) (v0 :: vs))) with (s := log (TInst y) s1) as (s3 & E3 & A3).
     - clear. induction (v0 :: vs) as [|v l IH]; cbn [map]; constructor; [|exact IH].
       intros s Hs. unfold tpl_literal_item. eexists. split.
       + eapply ev_eq; [apply (ev_v i E y _ Hs)|cbn [eval]; reflexivity].
-      + now apply agree_log.
+      + solve_agree.
     - discriminate.
     - exact A2.
     - rewrite E3. exists s3. split.
@@ -965,9 +1023,9 @@ Section Correct.
         intros s A. apply (valcode_gen h' Hh Hig); auto.
         * apply wf_nth; [exact Hw|lia].
         * intros s0 A0. unfold tpl_tuple_child. eexists. split.
-          -- eapply ev_index; [cbn [eval]; rewrite (A0 i) by lia; now rewrite HE|cbn [eval]; reflexivity|].
+          -- eapply ev_index; [cbn [eval]; rewrite (agree_get _ _ _ i A0) by lia; now rewrite HE|cbn [eval]; reflexivity|].
              rewrite py_index_sequence; [|exact Hw|exact Hs|lia]. now rewrite Nat2Z.id.
-          -- now apply agree_log.
+          -- apply agree_log; [exact A0|]. apply safe_item_seq; [exact Hw|exact Hs|lia].
   Qed.
 
   Lemma tuple_kids_nil_chk i v y l : forall n m, tuple_kids i v l n = [] -> tuple_chk y l m = true.
@@ -991,23 +1049,24 @@ Section Correct.
       rewrite (ev_and _ _ _ _ _ (ev_isinst _ [c_tuple] _ _ _ Eas)). cbn [truthy].
       destruct (isinst y [c_tuple]) eqn:Ei; cbn [andb].
       2: { exists (log (TInst y) s1). split; [reflexivity|].
-           apply post_of_agree; [eapply triple_le; eauto|]. now apply agree_log. }
+           apply post_of_agree; [eapply triple_le; eauto|]. solve_agree. }
       rewrite isinst_single in Ei.
-      assert (A2 : agree (S i) E1 (log (TInst y) s1)) by now apply agree_log.
+      assert (A2 : agree (S i) E1 (log (TInst y) s1)) by solve_agree.
       rewrite (ev_not _ _ _ _ (ev_v i E y _ A2)). rewrite (truthy_tuple y Hw Ei), (is_container_tuple y Hw Ei).
       rewrite negb_involutive. cbn [List.length tuple_chk]. rewrite andb_true_r.
-      eexists. split; [reflexivity|]. apply post_of_agree; [eapply triple_le; eauto|]. now apply agree_log.
+      eexists. split; [reflexivity|]. apply post_of_agree; [eapply triple_le; eauto|]. solve_agree.
     - rewrite gen_tuple_unfold. fold i. unfold tpl_tuple_op.
       rewrite join_cons2. unfold tpl_tuple_prefix at 1.
       rewrite (ev_and _ _ _ _ _ (ev_isinst _ [c_tuple] _ _ _ Eas)). cbn [truthy].
       destruct (isinst y [c_tuple]) eqn:Ei; cbn [andb].
       2: { exists (log (TInst y) s1). split; [reflexivity|].
-           apply post_of_agree; [eapply triple_le; eauto|]. now apply agree_log. }
+           apply post_of_agree; [eapply triple_le; eauto|]. solve_agree. }
       rewrite isinst_single in Ei.
       assert (Hs : issub (type_of y) c_Sequence = true)
         by (eapply issub_trans; [discriminate|exact Ei|apply sub_tuple_Sequence]).
+      pose proof (sized_of_collection _ (collection_of_sequence _ Hs)) as Hsz.
       pose proof (py_len_sized y Hw (sized_of_collection _ (collection_of_sequence _ Hs))) as Hlen.
-      assert (A2 : agree (S i) E1 (log (TInst y) s1)) by now apply agree_log.
+      assert (A2 : agree (S i) E1 (log (TInst y) s1)) by solve_agree.
       assert (Elen : ev (tpl_tuple_len (Z.of_nat (List.length (h0 :: hs))) (EVar (Pith i))) (log (TInst y) s1)
                      = (Ok (VBool (Nat.eqb (List.length (items y)) (List.length (h0 :: hs)))),
                         log (TEq (VInt (Z.of_nat (List.length (items y)))) (VInt (Z.of_nat (List.length (h0 :: hs)))))
@@ -1017,7 +1076,7 @@ Section Correct.
         destruct (Nat.eqb_spec (List.length (items y)) (List.length (h0 :: hs))) as [->|N];
           [apply Z.eqb_refl|apply Z.eqb_neq; lia]. }
       set (s3 := log _ (log (TLen y) (log (TInst y) s1))) in Elen.
-      assert (A3 : agree (S i) E1 s3) by now apply agree_log, agree_log.
+      assert (A3 : agree (S i) E1 s3) by (unfold s3; solve_agree).
       destruct (tuple_kids i (EVar (Pith i)) (h0 :: hs) 0%Z) as [|k1 ks] eqn:Ek.
       + (* every position ignorable *)
         cbn [join]. rewrite Elen. exists s3. split.
@@ -1181,13 +1240,13 @@ Section Correct.
       + assert (Hnil : pep_results y hs = []) by (inversion Hpeps; congruence).
         rewrite Hnil. cbn [app join existsb]. rewrite orb_false_r.
         destruct (raw_pith _ _ _ _ _ _ Ht Ha) as (s1 & Ep1 & P1).
-        rewrite (ev_isinst _ _ _ _ _ Ep1). eexists. split; [reflexivity|now apply post_log].
+        rewrite (ev_isinst _ _ _ _ _ Ep1). eexists. split; [reflexivity|apply post_log; [exact I|assumption]].
       + cbn [app]. rewrite join_cons2.
         destruct (node_enter _ _ _ _ _ _ Ht Ha) as (s1 & Eas & A1). fold i in A1. fold E1 in A1.
         rewrite (ev_or _ _ _ _ _ (ev_isinst _ _ _ _ _ Eas)). cbn [truthy].
         destruct (isinst y (c0 :: cs)); cbn [orb].
-        * eexists. split; [reflexivity|]. apply post_of_agree; [eapply triple_le; eauto|]. now apply agree_log.
-        * assert (A2 : agree (S i) E1 (log (TInst y) s1)) by now apply agree_log.
+        * eexists. split; [reflexivity|]. apply post_of_agree; [eapply triple_le; eauto|]. solve_agree.
+        * assert (A2 : agree (S i) E1 (log (TInst y) s1)) by solve_agree.
           destruct (join_or_eval (agree (S i) E1) (e1 :: es) _ Hpeps ltac:(discriminate) _ A2) as (s3 & E3 & A3).
           rewrite E3. exists s3. split; [reflexivity|].
           apply post_of_agree; [eapply triple_le; eauto|]. exact A3.
@@ -1252,20 +1311,43 @@ Section Correct.
 
   (* ---- the whole checker: for every well-formed hint and object, every draw and every user
           callable table, the generated expression returns exactly [check], never raising ---- *)
+  Lemma root_run h x :
+    hint_ok h = true -> wf x = true -> ignorable h = false ->
+    exists s2, ev (gen cf h (EVar (Pith 0)) 0) (st0 x) = (Ok (VBool (chk cf r h x)), s2)
+               /\ Forall safe_op (trace s2).
+  Proof.
+    intros Hok Hw Hig.
+    pose (E := fun k : nat => if Nat.eqb k 0 then Some x else None).
+    assert (Ht : pith_triple (EVar (Pith 0)) 0 x 1 E).
+    { unfold pith_triple, node_i, node_assign. cbn [simple]. split; [lia|]. split; [reflexivity|].
+      intros s A. exists s. split.
+      - cbn [eval]. rewrite (agree_get _ _ _ 0 A) by lia. reflexivity.
+      - split; [|exact (agree_safe _ _ _ A)].
+        intros k Hk. rewrite (agree_get _ _ _ k A Hk). unfold upd, E. destruct k; [reflexivity|lia]. }
+    assert (Ha : agree 1 E (st0 x)).
+    { split; [|constructor]. intros k Hk. destruct k; [reflexivity|lia]. }
+    destruct (gen_correct h Hok Hig _ _ _ _ _ Ht Hw _ Ha) as (s2 & E2 & P2).
+    exists s2. split; [exact E2|]. unfold post in P2. cbn [simple] in P2. exact (agree_safe _ _ _ P2).
+  Qed.
+
+  (* ---- the whole checker: for every well-formed hint and object, every draw and every user
+          callable table, the generated expression returns exactly [check], never raising ---- *)
   Theorem check_expr_correct h x :
     hint_ok h = true -> wf x = true ->
     verdict r preds (check_expr cf h) x = Ok (check cf r h x).
   Proof.
     intros Hok Hw. unfold verdict, check_expr, check. destruct (ignorable h) eqn:Hig; [reflexivity|].
-    pose (E := fun k : nat => if Nat.eqb k 0 then Some x else None).
-    assert (Ht : pith_triple (EVar (Pith 0)) 0 x 1 E).
-    { unfold pith_triple, node_i, node_assign. cbn [simple]. split; [lia|]. split; [reflexivity|].
-      intros s A. exists s. split.
-      - cbn [eval]. rewrite (A 0) by lia. reflexivity.
-      - intros k Hk. rewrite (A k Hk). unfold upd, E. destruct k; [reflexivity|lia]. }
-    assert (Ha : agree 1 E (st0 x)).
-    { intros k Hk. destruct k; [reflexivity|lia]. }
-    destruct (gen_correct h Hok Hig _ _ _ _ _ Ht Hw _ Ha) as (s2 & E2 & _).
-    rewrite E2. reflexivity.
+    destruct (root_run h x Hok Hw Hig) as (s2 & E2 & _). rewrite E2. reflexivity.
+  Qed.
+
+  (* ---- ... and every protocol operation it performs on the objects it inspects is safe:
+          len() only of Sized objects, indexing only in range / at present keys, and
+          next(iter(.)) only of re-iterable Collections ---- *)
+  Theorem check_expr_trace_safe h x :
+    hint_ok h = true -> wf x = true ->
+    Forall safe_op (trace_of r preds (check_expr cf h) x).
+  Proof.
+    intros Hok Hw. unfold trace_of, check_expr. destruct (ignorable h) eqn:Hig; [constructor|].
+    destruct (root_run h x Hok Hw Hig) as (s2 & E2 & T2). now rewrite E2.
   Qed.
 End Correct.
